@@ -161,16 +161,19 @@ func (r *DeviceLocal) RemoveRemoteDevice(ski string) {
 
 	// remove all subscriptions for this device
 	subscriptionMgr := r.SubscriptionManager()
-	subscriptionMgr.RemoveSubscriptionsForDevice(r.remoteDevices[ski])
+	subscriptionMgr.RemoveSubscriptionsForDevice(remoteDevice)
 
 	// remove all bindings for this device
 	bindingMgr := r.BindingManager()
-	bindingMgr.RemoveBindingsForDevice(r.remoteDevices[ski])
+	bindingMgr.RemoveBindingsForDevice(remoteDevice)
 
+	r.mux.Lock()
 	delete(r.remoteDevices, ski)
+	noDevicesLeft := len(r.remoteDevices) == 0
+	r.mux.Unlock()
 
 	// only unsubscribe if we don't have any remote devices left
-	if len(r.remoteDevices) == 0 {
+	if noDevicesLeft {
 		_ = Events.unsubscribe(api.EventHandlerLevelCore, r)
 	}
 
